@@ -13,7 +13,7 @@ pub fn prop() -> Prop {
     Prop {
         id: "C13",
         level: "model_checking",
-        rule: "(a) every alias of every function against the canonical name on every documented example and on every argument tuple (arity <=3) over 6 atoms of all types; (b) 48 expressions (a third reading :v, @m, a selected name or ^ after --split-by) as --select (first and later), --filter, --sort-by (both directions), --group-by, --split-by, --set macro and --set variable, the late positions also behind another --select over all sequences of <=3 (thorough <=4) values over 5 records; (c) 40 expressions in 14 spellings (separators blank, comma, comma-blank, two blanks, tab, newline; padding before the closing parenthesis; leading-dot sugar; a comma directly after a variable, macro, key, number, string) (d) --regular-expression-cache-size in {0,1,2,64} x all sequences of <=4 (thorough <=5) (subject, pattern) pairs over 2 subjects x 4 patterns (one invalid) through match and extract_regex_group; non-trivial = the compared forms differ textually and the value is not nothing; distinct by construction",
+        rule: "(a) every alias of every function against the canonical name on every documented example and on every argument tuple (arity <=3) over 6 atoms of all types; (b) 48 expressions (a third reading :v, @m, a selected name or ^ after --split-by) as --select (first and later), --filter, --sort-by (both directions), --group-by, --split-by, --set macro and --set variable, the late positions also behind another --select over all sequences of <=3 (thorough <=4) values over 5 records; (c) 40 expressions in 14 spellings (separators blank, comma, comma-blank, two blanks, tab, newline; padding before the closing parenthesis; leading-dot sugar; a comma directly after a variable, macro, key, number, string) (d) --regular-expression-cache-size in {0,1,2,64} x all sequences of <=2 (thorough <=3) (subject, pattern) pairs over 4 subjects x 6 patterns and of <=4 (thorough <=5) over a 12-pair core (one invalid pattern; two pairs whose pattern+subject texts glue to the same string) through match and extract_regex_group; non-trivial = the compared forms differ textually and the value is not nothing; distinct by construction",
         explanation: "differential inside the implementation (same run, several selections; or the rows kept / ordered / grouped / produced versus the values the same expression has as a selection) and, for the regex cache, against the regex crate called directly",
         assumptions: COMMON_ASSUMPTIONS.to_vec(),
         guards: vec!["alias-with-value", "filter-kept-and-dropped", "sort-reordered", "group-two-keys", "split-produced-rows", "comma-after-variable", "dot-sugar", "cache-eviction", "invalid-pattern", "macro-position", "variable-position"],
@@ -212,10 +212,34 @@ fn position_part(ctx: &mut Ctx) {
                     }
                 }
                 // the positions that run after the selections: once bare, once behind another --select
-                for presel in [false, true] {
-                    let pre: Vec<String> = if presel { vec!["--select=.=row".into()] } else { vec![] };
-                    let wrap = |r: &V| if presel { V::Obj(vec![("row".into(), r.clone())]) } else { r.clone() };
-                    let tag = |pos: &str| if presel { format!("{pos}-after-a-select") } else { pos.to_string() };
+                for presel in [0usize, 1, 2] {
+                    // 1: the whole row is selected; 2: only `.k` is selected, so rows that differ elsewhere share their selected values
+                    let pre: Vec<String> = match presel {
+                        0 => vec![],
+                        1 => vec!["--select=.=row".into()],
+                        _ => vec![if after_split { "--select=^.k=kk".to_string() } else { "--select=.k=kk".to_string() }, "--select=.t=tt".into()],
+                    };
+                    let wrap = |r: &V| match presel {
+                        0 => r.clone(),
+                        1 => V::Obj(vec![("row".into(), r.clone())]),
+                        _ => {
+                            let mut m = Vec::new();
+                            if after_split {
+                                m.push(("kk".to_string(), V::s("outer")));
+                            } else if let Some(k) = r.get("k") {
+                                m.push(("kk".to_string(), k.clone()));
+                            }
+                            if let Some(t) = r.get("t") {
+                                m.push(("tt".to_string(), t.clone()));
+                            }
+                            V::Obj(m)
+                        }
+                    };
+                    let tag = |pos: &str| match presel {
+                        0 => pos.to_string(),
+                        1 => format!("{pos}-after-a-select"),
+                        _ => format!("{pos}-after-a-collapsing-select"),
+                    };
                     // --sort-by orders by the selected values
                     for desc in [false, true] {
                         if let Some(order) = stable_order(&vals, desc) {
@@ -410,11 +434,16 @@ fn spelling_part(ctx: &mut Ctx) {
 // ------------------------------------------------------------------ (d) regex cache
 
 fn cache_part(ctx: &mut Ctx) {
-    let subjects = ["aab", "xyz"];
-    let patterns = ["a+", "(a)(b)?", "[", "(x|b)y?"];
-    let pairs: Vec<(usize, usize)> = (0..subjects.len()).flat_map(|s| (0..patterns.len()).map(move |p| (s, p))).collect();
+    // "ab"/"a" and "b"/"aa" glue to the same text (a cache keyed on pattern+subject without a separator confuses them)
+    let subjects = ["aab", "xyz", "ab", "b"];
+    let patterns = ["a+", "(a)(b)?", "[", "(x|b)y?", "a", "aa"];
+    let all_pairs: Vec<(usize, usize)> = (0..subjects.len()).flat_map(|s| (0..patterns.len()).map(move |p| (s, p))).collect();
+    // core: the 8 pairs of the first two subjects x first four patterns, plus the four gluing pairs
+    let core: Vec<(usize, usize)> = all_pairs.iter().copied().filter(|(s, p)| (*s < 2 && *p < 4) || (*s >= 2 && *p >= 4)).collect();
     let maxlen = ctx.tier.pick(4usize, 5);
+    let full_len = ctx.tier.pick(2usize, 3);
     for len in 1..=maxlen {
+        let pairs: &Vec<(usize, usize)> = if len <= full_len { &all_pairs } else { &core };
         let mut todo: Vec<Vec<usize>> = Vec::new();
         crate::explore::seqs_exact(pairs.len(), len, |i| todo.push(i.to_vec()));
         for idx in todo {
